@@ -13,6 +13,7 @@ import os
 import shutil
 import struct
 import tempfile
+import warnings
 
 from sim import corpus, prng, world
 from sim.stream import SimWriteStream
@@ -36,7 +37,7 @@ ASSUMPTIONS = [
     "WOFF2 glyf/loca/hmtx reconstruction is trusted to fontTools' own reader; transformed tables are compared at content level",
     "derived fields are recomputed only for TrueType-flavoured outputs whose tables were all recompiled with recalcBBoxes=True; composites with scaled or point-matched components are exempt from the bbox recomputation",
 ]
-EXPECTED_PROBES = ["validated.sfnt", "validated.woff", "validated.woff2", "validated.ttc", "derived.checked", "flavour.compared", "dest.unseekable", "padding.4", "woff.metadata"]
+EXPECTED_PROBES = ["resave", "foreign", "foreign.longloca", "woff2.loca_checked", "metrics.checked.vmtx", "validated.sfnt", "validated.woff", "validated.woff2", "validated.ttc", "derived.checked", "flavour.compared", "dest.unseekable", "padding.4", "woff.metadata"]
 
 TIERS = {
     "quick": {"budget_s": 170, "determinism_sample": 10, "n": {"save": 2600, "pipe": 500, "ttc": 300}, "minimise_s": 40, "max_minimise": 3},
@@ -55,6 +56,11 @@ def batches(ctx):
         {"name": "pipe", "n": n["pipe"], "fault_free": True},
         {"name": "ttc", "n": n["ttc"], "fault_free": True},
     ]
+
+
+OPS = ["glyfshift", "hmtx", "vmtx", "headflags", "cmap", "name", "os2", "deltable", "opaque", "subset", "scale", "reorder", "instantiate", "cffwidth"]
+SMALL_OPS = ["glyfshift", "hmtx", "vmtx", "headflags", "cmap", "name", "os2", "opaque"]
+VERTICAL = ["ttx:" + p for p in ("cffLib/data/TestSparseCFF2VF.ttx", "subset/data/NotdefWidthCID-Regular.ttx", "subset/data/NotoSansCJKjp-Regular.subset.ttx", "subset/data/TestCID-Regular.ttx", "subset/data/harfbuzz_repacker.ttx", "ttLib/tables/data/NotoColorEmoji.subset.index_format_3.ttx", "ttLib/tables/data/_v_h_e_a_recalc_OTF.ttx", "ttLib/tables/data/_v_h_e_a_recalc_TTF.ttx")]
 
 
 def _pick(r, idx=None):
@@ -88,7 +94,7 @@ def generate(ctx, batch, idx):
             return None
         ops = []
         for _ in range(r.choice([0, 0, 1, 1, 2, 3])):
-            name = r.choice(["glyfshift", "hmtx", "cmap", "name", "os2", "deltable", "opaque", "subset", "scale", "reorder", "instantiate", "cffwidth"])
+            name = r.choice(OPS)
             a = {"k": r.randrange(1 << 16), "seed": r.randrange(1 << 30)}
             if name == "scale":
                 a["upem"] = r.choice([500, 1000, 1024, 2048])
@@ -98,7 +104,27 @@ def generate(ctx, batch, idx):
             if name == "instantiate":
                 a["inplace"] = True
             ops.append([name, a])
-        return {"kind": "save", "font": k, "original": k.startswith("bin:") and r.random() < 0.5, "full": r.random() < 0.7, "cfg": _cfg(r), "ops": ops}
+        h = {"kind": "save", "font": k, "original": k.startswith("bin:") and r.random() < 0.5, "full": r.random() < 0.7, "cfg": _cfg(r), "ops": ops}
+        if r.random() < 0.12:
+            # vertical metrics are rare in the corpus: some histories are steered to the fonts that have them
+            vs = [v for v in VERTICAL if corpus.gen2(v) is not None]
+            if vs:
+                h["font"] = r.choice(vs)
+                h["original"] = False
+                ops.insert(r.randrange(len(ops) + 1), ["vmtx", {"k": r.randrange(1 << 16), "seed": 0}])
+        if r.random() < 0.2:
+            # a file that has been through WOFF2 before carries head.flags bit 11
+            ops.append(["headflags", {"k": 0, "seed": 0}])
+        if r.random() < 0.25:
+            # the source as another conforming writer stores it (oracles.container.foreign_variant)
+            h["foreign"] = {"longloca": r.random() < 0.6, "bit11": r.random() < 0.6, "order_seed": r.choice([None, r.randrange(1 << 16)])}
+            h["original"] = False
+        if r.random() < 0.3:
+            rops = []
+            for _ in range(r.choice([0, 0, 1, 2])):
+                rops.append([r.choice(SMALL_OPS), {"k": r.randrange(1 << 16), "seed": r.randrange(1 << 30), "tag": "ZZZZ", "n": 4}])
+            h["resave"] = {"cfg": _cfg(r), "full": r.random() < 0.6, "ops": rops}
+        return h
     if batch == "pipe":
         from props import c16_pipes
 
@@ -187,6 +213,7 @@ def execute(ctx, h):
     scratch = tempfile.mkdtemp(prefix="verif-c04-")
     try:
         with world.isolated(cwd=scratch):
+            warnings.simplefilter("ignore")
             k = h["kind"]
             if k == "save":
                 return exec_save(ctx, h, scratch)
@@ -214,6 +241,16 @@ def exec_save(ctx, h, scratch):
     src = _src(h["font"], h["original"])
     if src is None:
         return res
+    if h.get("foreign"):
+        fv = container.foreign_variant(src, **h["foreign"])
+        if fv is not None:
+            kind0, members0, errs0 = container.validate_any(fv)
+            if errs0:
+                raise AssertionError("foreign_variant produced an invalid file: %s" % errs0[:2])
+            src = fv
+            probes["foreign"] = 1
+            if h["foreign"]["longloca"] and struct.unpack_from(">h", members0[0]["head"], 50)[0] == 1 and len(members0[0].get("glyf", b"")) < 0x20000:
+                probes["foreign.longloca"] = 1
     cfg = h["cfg"]
     try:
         font = TTFont(io.BytesIO(src), lazy=cfg["lazy"], recalcBBoxes=cfg["recalcBBoxes"], recalcTimestamp=False)
@@ -227,14 +264,44 @@ def exec_save(ctx, h, scratch):
         events.append(["workload-rejected", type(e).__name__])
         probes["workload_rejected"] = 1
         return res
+    out = _save_and_judge(res, font, cfg, h["full"], h, scratch, "")
+    rs = h.get("resave")
+    if out is not None and rs and not res.get("violation"):
+        # the saved file is opened again, perhaps edited, and saved again (another flavour, padding...):
+        # what a file carries over from its previous container (head.flags bit 11, loca format,
+        # table order, padding) meets the next writer
+        try:
+            font2 = TTFont(io.BytesIO(out), lazy=rs["cfg"]["lazy"], recalcBBoxes=rs["cfg"]["recalcBBoxes"], recalcTimestamp=False)
+            if rs["full"]:
+                font2.ensureDecompiled()
+            for name, a in rs["ops"]:
+                font2 = c16.apply_edit(font2, name, a)
+            if rs["full"]:
+                font2.ensureDecompiled()
+        except Exception as e:
+            events.append(["reopen-rejected", type(e).__name__])
+            probes["reopen_rejected"] = 1
+            return res
+        probes["resave"] = 1
+        _save_and_judge(res, font2, rs["cfg"], rs["full"], h, scratch, "resave:")
+    if res.get("violation"):
+        _known(h, res)
+    return res
+
+
+def _save_and_judge(res, font, cfg, full, h, scratch, stage):
+    """Saves `font` as configured and judges the bytes; returns them (None when the save was refused)."""
+    from fontTools.ttLib import TTFont
+
+    events, probes = res["events"], res["probes"]
     try:
         out = save_with(font, cfg, scratch)
     except Exception as e:
         # a font the library refuses to save produces no file: nothing to validate (C01/C16's business)
-        events.append(["save-rejected", type(e).__name__, str(e)[:80]])
+        events.append([stage + "save-rejected", type(e).__name__, str(e)[:80]])
         probes["save_rejected"] = 1
         probes["save_rejected." + type(e).__name__] = 1
-        return res
+        return None
     res["nontrivial"] = True
     probes["dest." + cfg["dest"]] = 1
     if cfg["padding"] and "glyf" in font:
@@ -243,9 +310,9 @@ def exec_save(ctx, h, scratch):
         probes["woff.metadata"] = 1
     want = {None: "sfnt", "woff": "woff", "woff2": "woff2"}[cfg["flavor"]]
     kind, members, errs = validate(out, probes, want)
-    events.append([h["font"], [o[0] for o in h["ops"]], cfg["flavor"], prng.bdigest(out), len(errs)])
+    events.append([stage, h["font"], [o[0] for o in h["ops"]], cfg["flavor"], prng.bdigest(out), len(errs)])
     res["states"].append("%s|%s|%s|%s|%s|%s|%s" % (h["font"], [o[0] for o in h["ops"]], cfg["flavor"], cfg["reorder"], cfg["recalcBBoxes"], cfg["padding"], cfg["dest"]))
-    where = " [%s ops=%s cfg=%s full=%s original=%s]" % (h["font"], [o[0] for o in h["ops"]], cfg, h["full"], h["original"])
+    where = " [%s%s ops=%s cfg=%s full=%s original=%s]" % (stage, h["font"], [o[0] for o in h["ops"]] + ([">"] + [o[0] for o in h["resave"]["ops"]] if h.get("resave") else []), cfg, full, h["original"])
     if errs:
         _fail(res, "invalid-container:%s:%s" % (kind, errs[0].split(" ")[0]), "%s output violates container rules: %s" % (kind, errs[:4]) + where, kind=kind, rule=errs[0].split(" ")[0])
     # table order: reorderTables=True means the directory AND the data are in the recommended/sorted order
@@ -262,6 +329,26 @@ def exec_save(ctx, h, scratch):
                 _fail(res, "glyf-padding-not-honoured", "padding=%d but loca offsets %s" % (cfg["padding"], [o for o in offs if o % cfg["padding"]][:5]) + where)
         except Exception:
             pass
+    # WOFF2: the glyph data the decoder reconstructs is addressed by the loca it reconstructs, in the
+    # format the stored head announces (judged by the independent loca reader, whatever was loaded)
+    if not errs and kind == "woff2":
+        try:
+            back = TTFont(io.BytesIO(out), lazy=True)
+            t4 = {t: back.reader[t] for t in ("head", "maxp", "loca", "glyf")} if "glyf" in back else None
+        except Exception:
+            t4 = None
+        if t4 is not None and len(t4["head"]) >= 54 and len(t4["maxp"]) >= 6:
+            probes["woff2.loca_checked"] = probes.get("woff2.loca_checked", 0) + 1
+            src_ok = True
+            if font.reader is not None and not font.isLoaded("glyf"):
+                # glyph data passed through: only judged when the source was consistent itself
+                try:
+                    src_ok = not oglyf.parse_loca({t: font.reader[t] for t in ("head", "maxp", "loca", "glyf")})[3]
+                except Exception:
+                    src_ok = False
+            e4 = oglyf.parse_loca(t4)[3] if src_ok else []
+            if e4:
+                _fail(res, "woff2-decoded-loca-inconsistent-with-head", "after decoding the WOFF2: %s" % e4[:3] + where)
     tabs = members[0] if members else {}
     # metric counts: the stored hmtx/vmtx + numberOfMetrics decode to exactly the metrics that were saved
     if not errs and kind in ("sfnt", "woff"):
@@ -274,11 +361,12 @@ def exec_save(ctx, h, scratch):
                     want = None
                 if got is not None and want is not None:
                     probes["metrics.checked"] = probes.get("metrics.checked", 0) + 1
+                    probes["metrics.checked." + mt] = probes.get("metrics.checked." + mt, 0) + 1
                     if got != want:
                         i = next((i for i, (a, b) in enumerate(zip(got, want)) if a != b), None)
                         _fail(res, "stored-metrics-differ-from-saved-object:" + mt, "%s/%s decode to %s for glyph %s, the saved object has %s" % (hd, mt, got[i] if i is not None else len(got), i, want[i] if i is not None else len(want)) + where, table=mt)
     # derived fields
-    if not errs and kind in ("sfnt", "woff") and h["full"] and cfg["recalcBBoxes"] and all(t in tabs for t in ("glyf", "loca", "head", "maxp", "hhea", "hmtx")):
+    if not errs and kind in ("sfnt", "woff") and full and cfg["recalcBBoxes"] and all(t in tabs for t in ("glyf", "loca", "head", "maxp", "hhea", "hmtx")):
         try:
             derr = oglyf.derived(tabs)
         except Exception as e:
@@ -290,7 +378,7 @@ def exec_save(ctx, h, scratch):
         pass
     # numGlyphs agrees with hmtx/loca whatever was recalculated
     # flavour change changes no table content
-    if not res.get("violation") and cfg["flavor"] is not None and h["full"]:  # with everything loaded, saving cannot change the loaded set
+    if not res.get("violation") and cfg["flavor"] is not None and full:  # with everything loaded, saving cannot change the loaded set
         try:
             cfg0 = dict(cfg, flavor=None, dest="bytesio", meta=False, priv=False)
             base = save_with(font, cfg0, scratch)
@@ -343,9 +431,7 @@ def exec_save(ctx, h, scratch):
                                 _fail(res, "woff2-hmtx-content-differs", "hmtx differs after WOFF2 reconstruction" + where)
                     except Exception as e:
                         _fail(res, "woff2-output-unreadable", "%s: %s" % (type(e).__name__, str(e)[:100]) + where)
-    if res.get("violation"):
-        _known(h, res)
-    return res
+    return out
 
 
 def exec_pipe(ctx, h, scratch):
@@ -457,6 +543,7 @@ def exec_ttc(ctx, h, scratch):
                     got = oglyf.read_metrics(m, hd, mt)
                     want = [tuple(int(round(v)) for v in f[mt].metrics[g]) for g in f.getGlyphOrder()]
                     probes["metrics.checked"] = probes.get("metrics.checked", 0) + 1
+                    probes["metrics.checked." + mt] = probes.get("metrics.checked." + mt, 0) + 1
                     if got is None:
                         _fail(res, "ttc-member-metrics-inconsistent:" + mt, "member %d: %s/%s/maxp do not fit together (numberOfMetrics vs table length vs numGlyphs)" % (i, hd, mt) + where, table=mt)
                     elif got != want:
@@ -524,3 +611,25 @@ def simplify(ctx, h):
         c = copy.deepcopy(h)
         c["original"] = False
         yield c
+    if h.get("foreign"):
+        c = copy.deepcopy(h)
+        del c["foreign"]
+        yield c
+        for k, v in (("longloca", False), ("bit11", False), ("order_seed", None)):
+            if h["foreign"].get(k) != v:
+                c = copy.deepcopy(h)
+                c["foreign"][k] = v
+                yield c
+    if h.get("resave"):
+        c = copy.deepcopy(h)
+        del c["resave"]
+        yield c
+        for i in range(len(h["resave"]["ops"])):
+            c = copy.deepcopy(h)
+            del c["resave"]["ops"][i]
+            yield c
+        for k, v in (("flavor", None), ("reorder", True), ("padding", None), ("dest", "bytesio"), ("meta", False), ("priv", False), ("lazy", None), ("recalcBBoxes", True)):
+            if h["resave"]["cfg"].get(k) != v:
+                c = copy.deepcopy(h)
+                c["resave"]["cfg"][k] = v
+                yield c
